@@ -95,6 +95,8 @@ func Rewrite(src []byte, relFile string, kinds []string, names *Names) ([]byte, 
 			if err := rw.smtperr(); err != nil {
 				return nil, nil, err
 			}
+		case "vticker":
+			rw.vticker()
 		default:
 			return nil, nil, fmt.Errorf("unknown kind %q", k)
 		}
@@ -646,6 +648,35 @@ func (rw *rewriter) vclock() {
 			return true
 		}
 		rw.replace(sel.Pos(), sel.End(), kitName+".Now")
+		rw.needKit = true
+		return true
+	})
+	// Keep the time import used whatever happened above.
+	rw.tail = append(rw.tail, "var _ = "+tn+".Now")
+}
+
+// -------------------------------------------------------------- vticker ---
+
+// vticker replaces the channel tickers and timers of package time by the
+// virtual ones of verifkit (kit/vticker.go): time.NewTicker, time.Tick,
+// time.NewTimer, time.After (called or used as function values) and the type
+// names time.Ticker / time.Timer become verifkit.NewTicker ... verifkit.Timer.
+// Only the package qualifier is replaced, so the line layout is untouched.
+// time.AfterFunc, time.Sleep and context deadlines are left alone. The kind
+// is independent of vclock (which rewrites Now/Since/Until only); a file may
+// carry both.
+func (rw *rewriter) vticker() {
+	tn := rw.imports["time"]
+	if tn == "" || tn == "_" || tn == "." {
+		return
+	}
+	names := map[string]bool{"NewTicker": true, "Tick": true, "NewTimer": true, "After": true, "Ticker": true, "Timer": true}
+	ast.Inspect(rw.file, func(n ast.Node) bool {
+		sel, ok := n.(*ast.SelectorExpr)
+		if !ok || !rw.isPkg(sel.X, "time") || !names[sel.Sel.Name] {
+			return true
+		}
+		rw.replace(sel.X.Pos(), sel.X.End(), kitName)
 		rw.needKit = true
 		return true
 	})
